@@ -151,6 +151,31 @@ def run(ctx, rep, tier):
         res, m = B.solve("parens:%s|%s" % (a, b), r.assume, b_not(eq))
         if res == z3.sat:
             report(B, rep, "redundant-parentheses", model_string(m, ["-false -o "] + lp + [a] + rp + [" " + b]), "-false -o %s %s" % (a, b))
+    # redundant parentheses around a whole binary expression of every operator (a group may hold any expression, also a ',' list),
+    # alone and as an operand
+    for gi, (a, b) in enumerate([("-true", "-print"), ("-name x", "! -false")]):
+        for conn in ("", "-a", "-o", ","):
+            inner = ("%s %s %s" % (a, conn, b)).replace("  ", " ")
+            for ctx_pre, ctx_post in (("", ""), ("-false -o ", ""), ("", " , -true")):
+                lp, a1 = slot(["", "(", "( ", "( ("], "glp%d%s%d" % (gi, conn, len(ctx_pre) + len(ctx_post)))
+                rp, a2 = slot(["", ")", " )", ") )"], "grp%d%s%d" % (gi, conn, len(ctx_pre) + len(ctx_post)))
+                s1, s2 = z3.Int("sel_glp%d%s%d" % (gi, conn, len(ctx_pre) + len(ctx_post))), z3.Int("sel_grp%d%s%d" % (gi, conn, len(ctx_pre) + len(ctx_post)))
+                if ctx_pre or ctx_post:
+                    # as an operand the group is not redundant for the looser operators: compare with the explicitly grouped spelling
+                    reftext = "%s( %s )%s" % (ctx_pre, inner, ctx_post)
+                    both = z3.And(s1 == s2, s1 >= 1)
+                else:
+                    reftext = inner
+                    both = s1 == s2
+                r = B.parse([ctx_pre] + lp + [inner] + rp + [ctx_post], extra_assume=[a1, a2, both])
+                ref = B.parse([reftext])
+                if not any(is_ok(v) for _, v in ref.alts):
+                    rep.inconclusive.append("reference spelling %r does not parse" % reftext)
+                    continue
+                eq = same_result(r.I, r.alts, ref.alts)
+                res, m = B.solve("group:%s|%s|%s:%d" % (a, conn or "implicit", b, len(ctx_pre) + len(ctx_post)), r.assume, b_not(eq))
+                if res == z3.sat:
+                    report(B, rep, "redundant-parentheses", model_string(m, [ctx_pre] + lp + [inner] + rp + [ctx_post]), reftext)
     # chains of 3 (thorough: also 4) operands, every connector's spelling selected independently: the tree must not depend on which
     # connectors are written out
     chains = [["-true", "-name x", "-print"], ["-uid 1", "! -false", "-empty"]]
